@@ -331,7 +331,10 @@ impl C11 {
             if kind != "out_of_range" {
                 log.push(format!("delete_edges({:?})", ids));
                 let eids: Vec<EdgeId> = ids.iter().map(|&i| EdgeId(i)).collect();
-                let res = guard(|| h.delete_edges(&eids));
+                // half of the time through the deprecated alias
+                let alias = r.chance(1, 2);
+                #[allow(deprecated)]
+                let res = if alias { ctx.api("Hypergraph::delete_edge(alias)"); guard(|| h.delete_edge(&eids)) } else { guard(|| h.delete_edges(&eids)) };
                 if must_return(ctx, "Hypergraph::delete_edges", kind, res, || json!({"log": log})).is_none() {
                     return;
                 }
